@@ -125,6 +125,23 @@ pub fn run(ctx: &Ctx) -> i32 {
             }
             c
         })));
+        // enumeration through the formatting interface: {:?} of a Map / Set streams every entry into the formatter's writer
+        ops.push(("Debug formatting of Map and Set into a discarding writer".into(), Box::new(|| {
+            use std::fmt::Write as _;
+            struct Discard(u64);
+            impl std::fmt::Write for Discard {
+                fn write_str(&mut self, s: &str) -> std::fmt::Result {
+                    self.0 += s.len() as u64;
+                    Ok(())
+                }
+            }
+            let m = Map::new(&a[..]).unwrap();
+            let st = fst::Set::new(&a[..]).unwrap();
+            let mut d = Discard(0);
+            let _ = write!(d, "{:?}", m);
+            let _ = write!(d, "{:?}", st);
+            d.0
+        })));
         for k in [2usize, 3, 5, 8].iter() {
             for op in ["union", "intersection", "difference", "symmetric_difference"].iter() {
                 let (fa, fb) = (&fa, &fb);
@@ -362,8 +379,11 @@ pub fn run(ctx: &Ctx) -> i32 {
             if r.peak > r0.peak + r0.peak / 4 + 256 {
                 ev.violate("grows-with-n", format!("{}: peak live heap {} bytes at N={} but {} bytes at N={}", name, r0.peak, n0, r.peak, n), J::s(name.clone()));
             }
+            // the statement bounds the HEAP HELD, not the number of allocator calls: an implementation that allocates and frees
+            // a little per item stays within it. A growing allocation count is therefore recorded, not judged.
             if r.allocs > r0.allocs + 4 {
-                ev.violate("allocations-grow-with-n", format!("{}: {} allocations at N={} but {} at N={} (per-item allocation)", name, r0.allocs, n0, r.allocs, n), J::s(name.clone()));
+                ev.count("evidence:allocation-count-grows-with-n(recorded, not judged)");
+                let _ = (n0, n);
             }
         }
     }
@@ -375,7 +395,7 @@ pub fn run(ctx: &Ctx) -> i32 {
         ev,
         Spec {
             level: "exploration",
-            rule: "one evaluation = one complete traversal (or lookup section) of an FST with N 10-byte keys under the counting global allocator (single-threaded): full stream, range over 90%, range/search with a 70-byte lower bound, search(Subsequence), search(dfa) with lower bound, search_with_state, Map stream/keys/values, and union/intersection/difference/symmetric_difference over k in {2,3,5,8} streams (FSTs and range streams); peak live heap must stay under the generous constant 256 KiB + k*64 KiB, must not exceed the N=10^4 value by more than 25% + 256 B at N=10^5, 10^6 (thorough 10^7), and the NUMBER of allocations must not grow with N (<= +4); Fst::new over &[u8], Map::new, Fst::new over a memory map and 10^5 get/contains_key probes (hits and misses; decimal keys and random binary keys over all 256 byte values) must perform exactly 0 allocations, as must opening version-1 and version-2 files over borrowed bytes; 20000 bounded range scans on one thread must leave no more live heap behind than 500 do; non-trivial = every measurement; distinct = (operation, N)",
+            rule: "one evaluation = one complete traversal (or lookup section) of an FST with N 10-byte keys under the counting global allocator (single-threaded): full stream, range over 90%, range/search with a 70-byte lower bound, search(Subsequence), search(dfa) with lower bound, search_with_state, Map stream/keys/values, and union/intersection/difference/symmetric_difference over k in {2,3,5,8} streams (FSTs and range streams); peak live heap must stay under the generous constant 256 KiB + k*64 KiB, must not exceed the N=10^4 value by more than 25% + 256 B at N=10^5, 10^6 (thorough 10^7), (the NUMBER of allocations is recorded; a growing count is evidence, not a verdict, since the statement bounds the heap held); also measured: {:?} formatting of a Map and a Set into a discarding writer, and operations whose single next() call skips ~N candidates (disjoint intersections, cancelling differences, Set relations); Fst::new over &[u8], Map::new, Fst::new over a memory map and 10^5 get/contains_key probes (hits and misses; decimal keys and random binary keys over all 256 byte values) must perform exactly 0 allocations, as must opening version-1 and version-2 files over borrowed bytes; 20000 bounded range scans on one thread must leave no more live heap behind than 500 do; non-trivial = every measurement; distinct = (operation, N)",
             assumptions: vec!["the restated, decidable claim is bounded scales, not 'for all N'".into(), "constants are fixed a priori from the code's initial capacities with generous slack, not fitted".into()],
             floors: vec![("measurements", 60), ("scale-pairs-compared", 40), ("zero-alloc-sections", 12), ("many-scans-sections", 3)],
             exhaustive: Some(false),
